@@ -175,6 +175,26 @@ ITEMS = [
      "    let o = OwnedLockCollection::new(vec![Mutex::new(1)]);\n    for x in &o { let _ = x; }",
      "    let o = OwnedLockCollection::new(vec![Mutex::new(1)]);\n    for x in o { let _ = x; }",
      "e2", ["E0277"], None),
+    ("boxed_as_mut", "C15", "exclusive access to the members of a boxed collection (AsMut): a member replaced behind the cached lock list",
+     "    let mut c = LockCollection::try_new(vec![Mutex::new(1), Mutex::new(2)]).unwrap();\n    let v: &mut Vec<Mutex<i32>> = c.as_mut();\n    v[0] = Mutex::new(3);",
+     "    let c = LockCollection::try_new(vec![Mutex::new(1), Mutex::new(2)]).unwrap();\n    let v: &Vec<Mutex<i32>> = c.as_ref();",
+     'negb (has_impl "BoxedLockCollection" "AsMut")', ["E0599", "E0277"], None),
+    ("boxed_get_mut", "C15", "exclusive access to the data of a boxed collection without locking (LockableGetMut)",
+     "    let mut c = LockCollection::new(vec![Mutex::new(1)]);\n    let v = happylock::lockable::LockableGetMut::get_mut(&mut c);",
+     "    let mut c = OwnedLockCollection::new(vec![Mutex::new(1)]);\n    let v = happylock::lockable::LockableGetMut::get_mut(&mut c);",
+     'negb (has_impl "BoxedLockCollection" "LockableGetMut")', ["E0277", "E0599"], None),
+    ("boxed_extend", "C15", "members added to a boxed collection after its lock list was cached (Extend)",
+     "    let mut c = LockCollection::new(vec![Mutex::new(1)]);\n    c.extend(vec![Mutex::new(2)]);",
+     "    let mut c = OwnedLockCollection::new(vec![Mutex::new(1)]);\n    c.extend(vec![Mutex::new(2)]);",
+     'negb (has_impl "BoxedLockCollection" "Extend")', ["E0599", "E0277"], None),
+    ("boxed_iter_mut", "C15", "iteration by exclusive reference over a boxed collection",
+     "    let mut c = LockCollection::new(vec![Mutex::new(1)]);\n    for x in &mut c { let _ = x; }",
+     "    let mut c = RetryingLockCollection::new(vec![Mutex::new(1)]);\n    for x in &mut c { let _ = x; }",
+     'negb (has_impl "BoxedLockCollection" "IntoIterator&mut")', ["E0277"], None),
+    ("ref_as_mut", "C15", "exclusive access through a ref collection (AsMut)",
+     "    let data = vec![Mutex::new(1), Mutex::new(2)];\n    let mut c = RefLockCollection::new(&data);\n    let v: &mut Vec<Mutex<i32>> = c.as_mut();",
+     "    let data = vec![Mutex::new(1), Mutex::new(2)];\n    let c = RefLockCollection::new(&data);\n    let v: &Vec<Mutex<i32>> = c.as_ref();",
+     'negb (has_impl "RefLockCollection" "AsMut")', ["E0599", "E0277"], None),
     ("rc_payload_thread", "C15", "Rc payload crossing threads inside a Mutex",
      "    let m = Arc::new(Mutex::new(Rc::new(1)));\n    std::thread::spawn(move || drop(m));",
      "    let m = Arc::new(Mutex::new(Arc::new(1)));\n    std::thread::spawn(move || drop(m));",
